@@ -236,9 +236,15 @@ func fromURL(u *url.URL) (*fsCache, error) {
 	if v := u.Query().Get("timeout"); v != "" {
 		opts = append(opts, WithTimeout(parseTimeout(v)))
 	}
-	if encrypt := u.Query().Get("encrypt"); encrypt == "on" || encrypt == "aesgcm" {
+	switch encrypt := u.Query().Get("encrypt"); encrypt {
+	case "on", "aesgcm":
 		key := cmp.Or(u.Query().Get("encrypt_key"), os.Getenv("FSCACHE_ENCRYPT_KEY"))
 		opts = append(opts, WithEncryption(key))
+	case "", "off":
+	default:
+		// A DSN that asks for encryption in a spelling this package does not
+		// know ("ON", "aes-gcm", "true") must not quietly store plaintext.
+		return nil, fmt.Errorf("fscache: unknown value %q for the encrypt parameter (want \"on\", \"aesgcm\" or \"off\")", encrypt)
 	}
 	if updateMTime := u.Query().Get("update_mtime"); updateMTime == "on" {
 		opts = append(opts, WithUpdateMTime(true))
